@@ -51,6 +51,7 @@ fn member_iteration(m: &Cfg, how: How) -> Result<(Vec<u8>, Vec<usize>), String> 
 }
 
 pub fn check_c14(ctx: &mut Ctx, cfg: &Cfg, how: How) {
+    let _case = crate::watchdog::case_cfg("c14", cfg, how);
     let Cfg::Compound(members) = cfg else { return };
     ctx.eval();
     let case = || cfg_case("c14", cfg, how);
@@ -709,6 +710,7 @@ pub const C20_HISTORIES: u64 = 7;
 static JUNK_PREFIX: [u8; 3] = [0x55; 3];
 
 pub fn check_c20(ctx: &mut Ctx, cfg: &Cfg) {
+    let _case = crate::watchdog::case_cfg("c20", cfg, How::default());
     ctx.eval();
     let kind = cfg.kind_name();
     let base = match call(|| build_with_history(cfg, 0)) {
@@ -937,6 +939,7 @@ pub fn check_c19_helpers(ctx: &mut Ctx, pt: u8, min: usize, padding: u8, count: 
 
 /// (ii)+(iii) unknown-builder and third-party packets: image, generic parse, compounds, conversion back
 pub fn check_c19_cfg(ctx: &mut Ctx, cfg: &Cfg, how: How) {
+    let _case = crate::watchdog::case_cfg("c19-cfg", cfg, how);
     if !repr::violations(cfg).is_empty() {
         return;
     }
@@ -1047,6 +1050,7 @@ pub fn check_c19_cfg(ctx: &mut Ctx, cfg: &Cfg, how: How) {
 
 /// (iv) check_packet::<Custom<PT,MIN>> accepts precisely the well-framed strings
 pub fn check_c19_bytes(ctx: &mut Ctx, b: &[u8], pt: u8, min: usize) {
+    let _case = crate::watchdog::case_bytes2("c19-bytes", b, pt as u64, min as u64);
     ctx.eval();
     let data = drive::exact(b);
     let want = dec::well_framed(&data, Some(pt), min);
@@ -1104,6 +1108,28 @@ pub fn run_c19(ctx: &mut Ctx, shard: usize, nshards: usize) {
                     check_c19_helpers(ctx, pt, min, padding as u8, count, 256);
                 }
             }
+        }
+    }
+    // (i, large) the header helper on buffers whose byte count does not fit 16 bits
+    if !tiny {
+        let mut li = 0usize;
+        for buf_len in [65_532usize, 65_536, 65_540, 65_544, 131_072, 131_076, 196_612, 262_140, 262_144] {
+            for (pt, min, padding, count) in [(PTS[0], MINS[0], 0u8, 0u8), (PTS[2], MINS[1], 4, 31), (PTS[4], MINS[3], 252, 17)] {
+                li += 1;
+                if li % nshards == shard {
+                    check_c19_helpers(ctx, pt, min, padding, count, buf_len);
+                    ctx.class("c19:helpers:buffer>=64KiB");
+                }
+            }
+        }
+        // (ii, iii large) unknown / third-party packets larger than 65 535 bytes, alone and inside compounds
+        for (k, c) in crate::mon::writers::large_cfgs().into_iter().enumerate() {
+            if k % nshards != shard || !matches!(c, Cfg::Unknown { .. } | Cfg::Custom { .. }) {
+                continue;
+            }
+            check_c19_cfg(ctx, &c, How::default());
+            check_c19_cfg(ctx, &Cfg::Compound(vec![Cfg::Rr { ssrc: 1, blocks: vec![], padding: 0 }, c.clone(), Cfg::Bye { sources: vec![1], reason: String::new(), padding: 0 }]), How::default());
+            ctx.class("c19:cfg:image>=64KiB");
         }
     }
     // (ii)+(iii) unknown / custom configurations alone and inside compounds
@@ -1212,6 +1238,8 @@ pub fn floor_c19(ctx: &Ctx) -> Vec<(String, bool)> {
         "c19:check_padding:ok",
         "c19:check_padding:err",
         "c19:helpers:checked",
+        "c19:helpers:buffer>=64KiB",
+        "c19:cfg:image>=64KiB",
         "c19:check_packet:accept",
         "c19:check_packet:reject",
         "c19:unknown:padded:count>0",
